@@ -136,3 +136,30 @@ func VerifC05ManyTracks() {
 	}
 	zz.Reach("end")
 }
+
+// VerifC05LongTail: a meta or sysex event announcing a symbolic (up to 2^28-1) payload length, followed by N real
+// bytes (more than the reader's 4096-byte step): the allocation must stay proportional to what is really there.
+func VerifC05LongTail() {
+	N := zz.Param("N")
+	b0, b1, b2, b3 := zz.U8("len0")|0x80, zz.U8("len1")|0x80, zz.U8("len2")|0x80, zz.U8("len3")&0x7F
+	body := []byte{0x00}
+	if zz.Choice("kind", 2) == 0 {
+		body = append(body, 0xFF, 0x01)
+	} else {
+		body = append(body, 0xF0)
+	}
+	body = append(body, b0, b1, b2, b3)
+	body = append(body, make([]byte, N)...)
+	file := append(c02header(0, 1, 480), c02chunk("MTrk", body)...)
+	var s *SMF
+	var err error
+	var panicked bool
+	zz.AllocGuard(c05allocLimit+16*N, func() {
+		panicked = zz.Panics(func() { s, err = ReadFrom(bytes.NewReader(file)) })
+	})
+	zz.Assert(!panicked, "tail:no-panic")
+	if !panicked {
+		zz.Assert((err != nil && s == nil) || (err == nil && s != nil), "tail:error-xor-value")
+	}
+	zz.Reach("end")
+}
